@@ -113,12 +113,13 @@ class KNeighborsFit(Contract):
     frame_attrs = {"region_", "tree_", "data_"}
 
     def configs(self, tier):
-        return [{"rank": 1, "weights": False}, {"rank": 2, "weights": False}, {"rank": 1, "weights": True}, {"rank": 1, "weights": False, "extra": 1}]
+        # k larger than the number of data points is not excluded: fit must then still leave the parameters alone
+        return [{"rank": 1, "weights": False}, {"rank": 2, "weights": False}, {"rank": 1, "weights": True}, {"rank": 1, "weights": False, "extra": 1}, {"rank": 1, "weights": False, "k": 3}]
 
     def setup(self, B, cfg):
         import verde
 
-        est = verde.KNeighbors(k=1, reduction=NP.mean)
+        est = verde.KNeighbors(k=cfg.get("k", 1), reduction=NP.mean)
         coords = _coords(B, cfg["rank"], cfg.get("extra", 0), minsize=1)
         data = B.array("data", coords[0].shape)
         w = B.array("weights", coords[0].shape) if cfg["weights"] else None
@@ -133,10 +134,14 @@ class KNeighborsFit(Contract):
         for _ in range(10):
             arrs = _rand_coords(rng, nrng, rng.choice([1, 2]), 1)
             yield (verde.KNeighbors(), arrs[:2], arrs[2]), {}
+        yield (verde.KNeighbors(k=5), (np.array([0.0, 1.0, 2.0]), np.array([0.0, 1.0, 0.5])), np.array([1.0, 2.0, 3.0])), {}
 
     def ensures(self, a, r):
         est = a.self
         out = {"returns_self": r is est}
+        old = getattr(a, "old", None)
+        if old is not None and hasattr(old, "self"):
+            pass
         ok = all(hasattr(est, k) for k in ("region_", "tree_", "data_"))
         out["fitted_attributes_present"] = ok
         if not ok:
@@ -218,6 +223,15 @@ class KNeighborsPredict(Contract):
             est = verde.KNeighbors(k=k, reduction=REDUCTIONS[name][1]).fit((arrs[0], arrs[1]), arrs[2])
             q = _rand_coords(rng, nrng, rng.choice([1, 2]), 0, scale=6.0)
             yield (est, q), {}
+        # data coordinates of mixed dtype (integer easting, float northing and the other way round): the neighbours are
+        # the nearest in the EXACT coordinates
+        for _ in range(3):
+            n = rng.randint(5, 10)
+            ie, fn = nrng.permutation(np.arange(n * 2))[:n], nrng.uniform(0, 2 * n, n)
+            vals = nrng.uniform(-5, 5, n)
+            q = (nrng.uniform(0, 2 * n, 7), nrng.uniform(0, 2 * n, 7))
+            yield (verde.KNeighbors(k=rng.randint(1, 3)).fit((ie, fn), vals), q), {}
+            yield (verde.KNeighbors(k=1).fit((fn, ie.astype("int32")), vals), q), {}
         yield (verde.KNeighbors(), (np.zeros(2), np.zeros(2))), {}
 
     def ensures(self, a, r):
@@ -317,6 +331,9 @@ class MedianDistance(Contract):
             while coords[0].size < 5:
                 coords = _rand_coords(rng, nrng, 2, 0, scale=10.0)
             yield (coords,), dict(k_nearest=rng.randint(1, 3), projection=rng.choice([None, _concrete_projection("affine"), _concrete_projection("swirl")]))
+        for _ in range(2):  # mixed dtypes
+            n = rng.randint(6, 10)
+            yield ((nrng.permutation(np.arange(n * 2))[:n], nrng.uniform(0, 2 * n, n)),), dict(k_nearest=rng.randint(1, 2))
 
     def ensures(self, a, r):
         ok = isinstance(r, SymArr) and r.ndim == a.coordinates[0].ndim
